@@ -37,7 +37,8 @@ pub const OTHER_TEXTS: [&str; 3] = ["foo: nop\n", "foo: nop\nbar: rts\n", "foo: 
 pub const STRAY_TEXTS: [&str; 1] = ["lda #1\nzz: nop\n"];
 /// the project file as a buffer: the entry point is part of "the current buffers"
 pub const TOML_TEXTS: [&str; 2] = ["[build]\nentry = \"main.asm\"\n", "[build]\nentry = \"stray.asm\"\n"];
-pub const FILES: [&str; 4] = ["main.asm", "other.asm", "stray.asm", "mos.toml"];
+/// (the fifth is no file at all: an editor's unsaved document; it is only ever asked about, never opened)
+pub const FILES: [&str; 5] = ["main.asm", "other.asm", "stray.asm", "mos.toml", "untitled:Untitled-1"];
 
 pub static TYPING_LADDER: std::sync::atomic::AtomicBool = std::sync::atomic::AtomicBool::new(false);
 
@@ -264,6 +265,16 @@ pub fn battery(buffers: &Buffers, full: bool) -> Vec<Probe> {
         character: 0,
         class: "workspace",
     });
+    // a document that is not a file (last: should the server die of one of these, everything else has been asked)
+    for m in POS_METHODS.iter().chain(DOC_METHODS.iter()) {
+        out.push(Probe {
+            method: m,
+            file: 4,
+            line: 0,
+            character: 0,
+            class: "not-a-file",
+        });
+    }
     out
 }
 
